@@ -188,14 +188,23 @@ def judge_split(text, d):
         problems.append(f"join gives {d.join(got)!r}")
     if got != spec_split(text, d):
         problems.append(f"parts {got!r} but the delimiters outside quotes give {spec_split(text, d)!r}")
-    if any(not R.fullmatch(p) for p in got[:-1]) or not (R.fullmatch(got[-1]) or RLAST.fullmatch(got[-1])):
+    if not got:
+        problems.append("no part at all")
+    elif any(not R.fullmatch(p) for p in got[:-1]) or not (R.fullmatch(got[-1]) or RLAST.fullmatch(got[-1])):
         problems.append("a part is unbalanced or holds a top-level delimiter")
     return problems
 
 
-def replay_split(inputs, ob):
-    text, d = inputs["text"], inputs["delimiter"]
+def replay_split(inputs, ob, _search=True):
+    text, d = inputs.get("text", ""), inputs.get("delimiter", ",")
+    text = text if isinstance(text, str) else ""
     problems = judge_split(text, d)
+    if not problems and _search:
+        # the counter-model of a loop-invariant VC is a loop *state*, not necessarily a failing call:
+        # hunt natively for a failing input (all strings of length <= 6 over {a , ; " \})
+        found = search_split(ob, 0)
+        if found is not None:
+            return found[1]
     return ReplayResult(bool(problems), f"_split_respecting_quotes({text!r}, {d!r}) -> {mt._split_respecting_quotes(text, d)!r}: " + "; ".join(problems))
 
 
@@ -206,7 +215,7 @@ def search_split(ob, seed):
             for d in ",;":
                 if judge_split(text, d):
                     inputs = {"text": text, "delimiter": d}
-                    return inputs, replay_split(inputs, ob)
+                    return inputs, replay_split(inputs, ob, _search=False)
     return None
 
 
@@ -244,17 +253,47 @@ def split(S):
     def is_prefix_extract(x):
         return z3.is_app(x) and x.decl().kind() == z3.Z3_OP_SEQ_EXTRACT and z3.is_int_value(x.arg(1)) and x.arg(1).as_long() == 0
 
+    head = {"subs": []}
+
+    def is_string_term(x):
+        return z3.is_expr(x) and x.sort() == STR and not z3.eq(x, t)
+
+    def is_substr(x):
+        return z3.is_app(x) and x.decl().kind() == z3.Z3_OP_SEQ_EXTRACT
+
+    def char_literal_fact(c):
+        """text[k] == "c" / text[k] != "c"  (a branch condition on a consumed character)"""
+        if z3.is_not(c):
+            c = c.arg(0)
+        if not z3.is_eq(c) or c.arg(0).sort() != STR:
+            return False
+        a_, b_ = c.arg(0), c.arg(1)
+        return (z3.is_string_value(a_) and mentions(b_, is_substr) and not mentions(b_, is_prefix_extract)) or (z3.is_string_value(b_) and mentions(a_, is_substr) and not mentions(a_, is_prefix_extract))
+
+    def word_fact(c):
+        """boolean combination of integer facts and character/literal comparisons"""
+        if z3.is_and(c) or z3.is_or(c) or z3.is_not(c) and not z3.is_eq(c.arg(0)) or z3.is_implies(c):
+            return all(word_fact(x) for x in c.children())
+        return char_literal_fact(c) or not mentions(c, is_string_term)
+
     def emit(name, goal, theory, extra=()):
         """One loop-invariant obligation with *selected hypotheses* (a subset of the path condition:
-        still sound).  z3's sequence solver is unstable on word equations mixed with regular-language
-        constraints, so the word equation is proved without the memberships and vice versa."""
+        still sound).  z3's sequence solver is unstable when word equations, substr terms and
+        regular-language constraints meet in one query, so each clause gets the hypotheses of its theory:
+        arith = integer facts only; word = integer facts + comparisons of a consumed character with a
+        literal; plain = no membership and no substr; re = everything but the prefix word equation."""
         full = S.pc
-        if theory == "word":
-            S.pc = [c for c in full if not mentions(c, is_membership)]
-        elif theory == "re":
-            S.pc = [c for c in full if not mentions(c, is_prefix_extract)]
+        if theory == "arith":
+            S.pc = [c for c in full if not mentions(c, is_string_term)]
+        elif theory == "word":
+            S.pc = [c for c in full if word_fact(c)]
+        elif theory == "plain":
+            S.pc = [c for c in full if not mentions(c, is_membership) and not mentions(c, is_substr)]
         else:
-            S.pc = [c for c in full if not mentions(c, is_membership) and not mentions(c, is_prefix_extract)]
+            # regular-language reasoning: the consumed characters are named constants of length 1
+            # (head["subs"]), every other fact about text positions is dropped
+            subs = head.get("subs") or []
+            S.pc = [h for h in (z3.substitute(c, *subs) if subs else c for c in full) if not mentions(h, is_substr)]
         S.pc = S.pc + list(extra)
         try:
             S.oblige(name, goal, kind="inv-" + name.rsplit(".", 1)[1])
@@ -272,8 +311,6 @@ def split(S):
     def cat(xs):
         xs = list(xs)
         return z3.StringVal("") if not xs else (xs[0] if len(xs) == 1 else z3.Concat(*xs))
-
-    head = {}
 
     def inv(L):
         calls["n"] += 1
@@ -294,11 +331,11 @@ def split(S):
                 ("inside_quotes_the_current_part_is_an_open_quote", Implies(And(SBool(inq_t), SBool(it < n)), SBool(z3.InRe(cur_, RIN))), "re"),
                 ("inside_quotes_at_the_end_it_may_end_in_a_lone_backslash", Implies(SBool(inq_t), SBool(z3.InRe(cur_, z3.Union(RIN, RIN_BS)))), "re"),
                 ("outside_quotes_the_current_part_is_balanced", Implies(Not(SBool(inq_t)), SBool(z3.InRe(cur_, R))), "re"),
-                ("no_parts_iff_nothing_joined", SBool((plen == 0) == (jd_ == z3.StringVal(""))), "word"),
+                ("no_parts_iff_nothing_joined", SBool((plen == 0) == (jd_ == z3.StringVal(""))), "plain"),
             ]
 
         if tag is None:  # assumed at the loop head; remember the head state for the back-edge rewriting
-            head.update(atoms=atoms(z3.Concat(jd, cur)), i=it)
+            head.update(atoms=atoms(z3.Concat(jd, cur)), i=it, subs=[])
             return [(nm, g) for nm, g, _ in clauses(jd, cur, z3.Concat(jd, cur))]
         if tag == "init":
             for nm, g, theory in clauses(jd, cur, z3.Concat(jd, cur)):
@@ -318,10 +355,14 @@ def split(S):
         #     term itself makes z3 diverge) and split on the class of the first one, substituting the
         #     constant, so that every case is closed by regex reasoning on `old ++ "c" [++ c2]`.
         sub = []
-        for k_, piece in enumerate(consumed_chars(z3.Concat(jd, cur))):
+        pieces = consumed_chars(strterm(L.ch))  # the character read in this iteration (even when it is not kept)
+        pieces += [x for x in consumed_chars(z3.Concat(jd, cur)) if not any(z3.eq(x, y) for y in pieces)]
+        for k_, piece in enumerate(pieces):
             c = z3.String(S.fresh_name(f"consumed{k_}"))
-            S.assume(SBool(c == piece))
+            emit(f"{Q}.loop0.consumed_piece_{k_}_is_one_character.pres", SBool(z3.Length(piece) == 1), "word")
+            S.assume(And(SBool(c == piece), SBool(z3.Length(c) == 1)))
             sub.append((piece, c))
+        head["subs"] = sub
         jd_m, cur_m = (z3.substitute(jd, *sub), z3.substitute(cur, *sub)) if sub else (jd, cur)
         cases = [("", [], None)]
         if sub:
